@@ -158,7 +158,9 @@ class FnExec(ExprMixin, CallMixin, StmtMixin):
         self.bind_params(st)
         self.snapshot_old(st)
         for i, r in enumerate(c.requires):
-            st.assume(self.eval_clause(r, st))
+            t_pre = self.eval_clause(r, st)
+            st.assume(t_pre)
+            self.E.hyp_origin[str(t_pre)] = "pre"
         # cover: precondition satisfiable (vacuity guard); expected NOT to be proved false
         from .symex import Obligation
 
@@ -223,6 +225,13 @@ class FnExec(ExprMixin, CallMixin, StmtMixin):
                 st.env["result"] = self.ops.sv(val, rpt)
         else:
             st.env["result"] = val
+        for body in getattr(c, "epilogue", []):
+            for g in body:
+                for nn in ast.walk(g):
+                    nn.lineno = self.cur_line
+            res = self.exec_block(body, st)
+            if len(res) != 1:
+                raise Unsupported("ghost code must be straight-line")
         for h in c.hints:
             saved_mode = self.spec_mode
             try:
